@@ -329,6 +329,21 @@ KeysAt(C, T, j, path) ==
          [] E.k = "tup" -> <<<<>>>> \o KeysAt(C, E.ts[i], j.v[i], Tail(path))
          [] E.k = "ref" -> <<j.v[i].key>> \o KeysAt(C, C.j[E.name].jfs[i].t, j.v[i].val, Tail(path))
 
+\* The verdict on a corrupted value, computed at the smallest enclosing sub-value. FromJ of a list / dict
+\* fails as soon as one element / field fails and the untouched siblings of a well-formed value are
+\* accepted (RoundTrip), so this is the verdict of FromJ on the whole corrupted value
+\* (MC_JsonDict!LocalIsGlobal checks the equivalence on the model terms).
+LocalFromJ(C, T, j, path, cls) ==
+  IF cls \in EntryClassNames
+  THEN LET par == SubAt(C, T, j, Front(path))
+           i == Last(path)
+           view == C.j[par.t.name]
+           f == view.jfs[i]
+       IN IF cls = "null_val" THEN FromJ(C, f.t, JNull)
+          ELSE IF KeyIndex(RemoveAt(par.j.v, i), KeyOf(view, f)) = 0 THEN Bad
+          ELSE FromJ(C, par.t, JDict(RemoveAt(par.j.v, i)))
+  ELSE LET tg == SubAt(C, T, j, path) IN FromJ(C, tg.t, Mut(tg.t, tg.j, cls))
+
 \* every applicable (path, class) of a well-formed JSON value
 RECURSIVE AllCorr(_, _, _)
 Prefixed(i, S) == {<<<<i>> \o pc[1], pc[2]>> : pc \in S}
